@@ -130,6 +130,56 @@ def stateful(quick):
     return out
 
 
+def duplicates(quick):
+    """the same document repeated (equal rule objects, distinct identity): fine and failing rules 2-3 times, adjacent
+    and with other rules in between, in every position; a repeated rule that correlation rules refer to (the
+    reference means the last one); repeated correlation rules; under the state pipeline. Accounting is per object."""
+    out = []
+    kinds = [BASIC[0], BASIC[1], D(["ph"]), D(["ok"], "pipe"), D(["ok", "ph"]), D(["ok"], "fin"), D(["cond"]), D(["nph"])]
+    cfgs = [(True, "test", True), (True, "test", False), (False, "default", True)]
+    for x in kinds:
+        for (p, f, c) in cfgs:
+            out.append(mk(dup_rule([x], 0, 1), p, f, c))
+            out.append(mk(dup_rule(dup_rule([x], 0, 1), 0, 2), p, f, c))
+    for x in kinds:
+        for y in kinds[:5] if quick else kinds:
+            if x is y:
+                continue
+            base = [x, y]
+            for seq in (dup_rule(base, 0, 1), dup_rule(base, 0, 2), dup_rule([y, x], 1, 2)):     # xxy xyx yxx
+                out.append(mk(seq, True, "test", True))
+                if not quick:
+                    out.append(mk(seq, True, "test", False))
+                    out.append(mk(seq, False, "default", True, noteq=True))
+            out.append(mk(dup_rule(dup_rule(base, 0, 2), 1, 3), True, "test", True))                # x y x y
+            if not quick:
+                out.append(mk(dup_rule(dup_rule(dup_rule(base, 0, 1), 0, 3), 2, 4), True, "test", True))   # x x y x y
+    # a repeated rule that is referred to (all copies in front of the referring rule; the name means the last copy)
+    for x in kinds[:3] + kinds[5:6] if quick else kinds:
+        for g in (True, False):
+            out.append(mk(dup_rule([x], 0, 1) + [Cr([1], g)], True, "test", True))
+            out.append(mk(dup_rule([x], 0, 1) + [Cr([1], g), BASIC[1]], False, "default", True))
+            out.append(mk(dup_rule([x, BASIC[1]], 0, 2) + [Cr([2], g), Cr([2, 1], not g)], True, "test", True))
+            out.append(mk(dup_rule(dup_rule([x], 0, 1), 0, 2) + [Cr([2], g)], True, "test", not g))
+    # repeated correlation rules (they fail alike when what they refer to failed), also nested and referred to
+    for x in kinds[:3] + kinds[5:6] if quick else kinds:
+        for g in (True, False):
+            for st in ("ok", "pipe", "fin"):
+                base = [x, Cr([0], g, st)]
+                out.append(mk(dup_rule(base, 1, 2), True, "test", True))
+                if st == "ok" or not quick:
+                    out.append(mk(dup_rule(base + [BASIC[0]], 1, 3), True, "test", True))
+                    out.append(mk(dup_rule(base, 1, 2) + [Cr([2], not g)], True, "test", True))
+                    out.append(mk(dup_rule(dup_rule(base, 1, 2), 1, 3), True, "default", g, fcs=not g))
+    # per-rule pipeline state
+    for x in ST[:4] if quick else ST:
+        out.append(mk(dup_rule([x], 0, 1), "state", "state", True))
+        for y in ST[:3] if quick else ST[:6]:
+            out.append(mk(dup_rule([x, y], 0, 2), "state", "state", True))
+            out.append(mk(dup_rule([y, x], 1, 2), "state", "test", True))
+    return out
+
+
 def with_fields(rules, rng=None):
     out = []
     for i, r in enumerate(rules):
@@ -142,6 +192,9 @@ def with_fields(rules, rng=None):
 
 def mk(rules, pipe, fmt, collect, fcs=False, rng=None, noteq=False):
     rules = with_fields(rules, rng)
+    for r in rules:
+        if "as" in r and r["k"] == "d":
+            r["fld"] = rules[r["as"]]["fld"]
     if not pipe:   # the pipeline stages do not exist without a pipeline
         for r in rules:
             if r["stage"] in ("pipe", "fin", "crash"):
@@ -169,8 +222,21 @@ def insert_rule(rules, pos, new):
     for r in out:
         if r["k"] == "c":
             r["refs"] = [j + 1 if j >= pos else j for j in r["refs"]]
+        if r.get("as", -1) >= pos:
+            r["as"] += 1
     out.insert(pos, copy.deepcopy(new))
     return out
+
+
+def dup_rule(rules, j, pos):
+    """repeat the document of rule j at position pos > j: an equal rule object with its own identity"""
+    new = copy.deepcopy(rules[j])
+    new["as"] = rules[j].get("as", j)
+    return insert_rule(rules, pos, new)
+
+
+def name_ix(rules, i):
+    return rules[i].get("as", i)
 
 
 def add_correlations(rules, rng, k):
@@ -271,6 +337,8 @@ def gen(tier, rng):
                         out.append(mk(list(t) + [Cr(refs, g), Cr([n, 0], g, "ok")], True, "default", True, fcs=not g))
     # 3b. correlation rules interleaved with detection rules
     out += interleaved(quick)
+    # 3e. repeated documents
+    out += duplicates(quick)
     # 3d. decisions on per-rule pipeline state
     out += stateful(quick)
     # 3c. negated selections, convert_not_as_not_eq
@@ -286,7 +354,13 @@ def gen(tier, rng):
             rules = [copy.deepcopy(rng.choice(ST)) if rng.random() < 0.7 else r for r in rules]
         if rng.random() < 0.5:
             rules = add_correlations(rules, rng, rng.randint(1, 3))
-        if rng.random() < 0.1 and len(rules) > 1:      # the coordinator's shape: base, emitting correlation, failing, two-condition
+        if rng.random() < 0.25:      # repeat the document of a rule nothing refers to, once or twice, anywhere behind it
+            for _ in range(rng.choice([1, 1, 2])):
+                free = [j for j in range(len(rules)) if not any(r["k"] == "c" and j in r["refs"] for r in rules)]
+                if free and len(rules) < 9:
+                    j = rng.choice(free)
+                    rules = dup_rule(rules, j, rng.randint(j + 1, len(rules)))
+        elif rng.random() < 0.1 and len(rules) > 1:      # the coordinator's shape: base, emitting correlation, failing, two-condition
             rules = insert_rule(rules, 1, Cr([0], rng.random() < 0.5))
         out.append(mk(rules, p, rng.choice(["test", "default", "state"]), rng.random() < 0.7, fcs=rng.random() < 0.2, rng=rng,
                       noteq=rng.random() < 0.4))
@@ -402,13 +476,15 @@ def to_coq(c, r):
             rules.append(f"Det {{| d_raw := {raw}; d_finfail := {fin}; d_index := {cstr(index_of(c, i))} |}}")
         else:
             pre = expected_c_pre(c, i)
-            names = clist(cstr("r%d" % j) for j in ru["refs"])
+            names = clist(cstr("r%d" % name_ix(c["rules"], j)) for j in ru["refs"])
             rules.append(f"Cor {{| c_pre := {pre}; c_names := {names}; c_finfail := {fin}; c_index := {cstr(index_of(c, i))} |}} "
                          f"{clist(cnat(j) for j in ru['refs'])} {cbool(ru['gen'])}")
     res = r["res"]
     ires = coutcome(res) if isinstance(res, dict) else coutcome({"q": res})
     ierrs = clist(f"({cnat(p if p >= 0 else 999)}, {SIGMA.get(cl, 99)})" for p, cl in r["errors"])
-    order_ok = cbool(r["order"] == list(range(len(c["rules"]))))
+    # collection order = document order, and every reference resolved to the rule object the case means
+    order_ok = cbool(r["order"] == [name_ix(c["rules"], i) for i in range(len(c["rules"]))]
+                     and r.get("refpos") == [ru["refs"] for ru in c["rules"] if ru["k"] == "c"])
     al = clist(coutcome(a) for a in r["alone"])
     ncs = clist(cnat(len(ru['conds']) if ru['k'] == 'd' and (ru.get('form', 'list') == 'list') else 1) for ru in c['rules'])
     K = f"{{| k_fmt := {dict(default=0, test=1, state=2)[c['fmt']]}; k_pipe := {cbool(pipe)} |}}"
@@ -420,7 +496,7 @@ def mutate(c, rng):
     n = len(c["rules"])
     for i in range(n):
         # drop rule i (only if nothing refers to it), renumbering references
-        if not any(r["k"] == "c" and i in r["refs"] for r in c["rules"]):
+        if not any(r["k"] == "c" and i in r["refs"] for r in c["rules"]) and not any("as" in r for r in c["rules"]):
             d = copy.deepcopy(c)
             del d["rules"][i]
             for r in d["rules"]:
@@ -482,7 +558,11 @@ PROPERTY = Property(
          "correlation rules; a pipeline whose items decide on per-rule pipeline state (strict_field_mapping_failure behind a product-conditional "
          "mapping, rule_failure behind a processing-state condition and behind an applied-item condition, output format 'state' showing "
          "the state): every sequence of length <= 2 over 11 rule kinds and of length 3 (thorough also 4) over the first 5 (8), with "
-         "correlation rules; random collections of 1..6 rules + up to 3 correlation rules at random dependency-respecting positions. Oracle: fresh backend, fresh pipeline, freshly parsed rule for every rule on its "
+         "correlation rules; repeated documents (equal rule objects with their own identity): 8 fine / failing rule kinds 2-3 times, adjacent and "
+         "with other rules in between in every position, repeated rules that correlation rules refer to, repeated correlation rules "
+         "(also nested, failing at pipeline / finalisation / through what they refer to), under the state pipeline; error records and "
+         "references are identified by object identity = position; random collections of 1..6 rules + up to 3 correlation rules at "
+         "random dependency-respecting positions, a quarter of them with a rule repeated once or twice. Oracle: fresh backend, fresh pipeline, freshly parsed rule for every rule on its "
          "own. Only dependency-respecting document orders (a correlation rule after the rules it names; other orders are C09). "
          "non-trivial = some rule fails or a correlation rule is present; distinct by case hash",
     assumptions=["per-rule conversion (pipeline application, condition conversion, finish_query) is a parameter of the theorems; the "
